@@ -795,6 +795,11 @@ pub fn c09(ctx: &Ctx, rep: &mut Report) {
         }
         let policy = if long {
             PolSpec::Std
+        } else if !ctx.miri && rng.chance(1, 120) {
+            // one growth step of more than 16 MiB / 2^24 (+1, +2, ...): the size the policy returns
+            // must be adopted whatever its distance from the current capacity
+            rep.count("policies_with_growth_step_beyond_16mib");
+            PolSpec::JumpTo(cap + (1 << 24) + *rng.pick(&[1usize, 2, 4096, 1 << 20, 1 << 24, (1 << 25) + 3]))
         } else {
             match rng.below(5) {
                 0 => PolSpec::RefuseFirst(1 + rng.below(2), Box::new(PolSpec::PlusOne)),
